@@ -221,9 +221,15 @@ def run(ctx):
         impls = [x for x in ch.bodies if x.trait in (SRV + "SerializeResponse", SRV + "AsyncSerializeResponse") and ty_adt(x.self_ty) == adt and x.name == "serialize"]
         ctx.check(len(impls) == 2, "R4.2", "conjure_http", f"{adt.split('::')[-1]}|impls", f"{adt.split('::')[-1]}: expected blocking and async serialize impls, found {len(impls)}", nontrivial=False)
         for x in impls:
-            fam = [x] + [y for y in ch.bodies if y.impl and not y.trait and ty_adt(y.self_ty) == adt and any(t["call"].get("id") == y.id for _, t in x.calls())]
-            direct = any((dt.resolve_const(y, a) or {}).get("item") == "http::status::StatusCode::NO_CONTENT" for y in fam for bb, j, s in y.stmts() for a in [s["r"].get("use")] if isinstance(a, dict))
+            # the impl with the private helpers it shares with its twin spliced in (own inherent methods, generic free functions);
+            # the *other* serializers' entry points (`serialize` / `serialize_inner` of another serializer type) stay calls
+            from .. import inline as _inl2
+            ex = _inl2.expand(ch, x, depth=2, pred=lambda cb: cb.d.get("vis") != "pub" and not (cb.name in ("serialize", "serialize_inner") and (ty_adt(cb.self_ty) or "") not in ("", adt)))
+            fam = [ex] + ch.closures_of(x)
+            direct = any((dt.resolve_const(y, a) or {}).get("item") == "http::status::StatusCode::NO_CONTENT" for y in fam for bb, j, s in y.stmts() for a in [s["r"].get("use")] if isinstance(a, dict)) \
+                or any((dt.resolve_const(y, a) or {}).get("item") == "http::status::StatusCode::NO_CONTENT" for y in fam for bb, t in y.calls() for a in t["args"])
             via = [ty_adt((t["call"].get("substs") or [{}])[0]) for y in fam for bb, t in y.calls() if t["call"]["name"] == "serialize" and t["call"].get("trait") in (SRV + "SerializeResponse", SRV + "AsyncSerializeResponse")]
+            via += [ty_adt(t["call"].get("self_ty")) for y in fam for bb, t in y.calls() if t["call"]["name"] == "serialize_inner" and t["call"].get("local") and (ty_adt(t["call"].get("self_ty")) or "") not in ("", adt)]
             produces = direct or (SRV + "EmptyResponseSerializer") in via
             allowed = {SRV + "EmptyResponseSerializer", SRV + "StdResponseSerializer", CJ + "BinaryResponseSerializer"}
             pair_ok = True
